@@ -39,6 +39,45 @@ pub fn current_num_threads() -> usize {
     executor().map(|e| e.num_threads()).unwrap_or(1)
 }
 
+/// Runs `op` in a scope in which tasks can be spawned; all of them finish before `scope` returns.
+pub fn scope<'scope, OP, R>(op: OP) -> R
+where
+    OP: FnOnce(&Scope<'scope>) -> R,
+{
+    let scope = Scope { tasks: std::sync::Mutex::new(Vec::new()) };
+    let result = op(&scope);
+    loop {
+        let tasks: Vec<Task<'scope>> = std::mem::take(&mut *scope.tasks.lock().unwrap());
+        if tasks.is_empty() {
+            break;
+        }
+        run_scoped(tasks);
+    }
+    result
+}
+
+/// The spawn handle of [`scope`]. Tasks are collected and run when the scope body returns.
+pub struct Scope<'scope> {
+    tasks: std::sync::Mutex<Vec<Task<'scope>>>,
+}
+struct ScopePtr<'scope>(*const Scope<'scope>);
+// SAFETY: the pointer is only dereferenced while `scope()` is still on the stack (it drains all
+// tasks before returning) and `Scope` only holds a `Mutex`.
+unsafe impl Send for ScopePtr<'_> {}
+impl<'scope> Scope<'scope> {
+    pub fn spawn<F>(&self, f: F)
+    where
+        F: FnOnce(&Scope<'scope>) + Send + 'scope,
+    {
+        let this = ScopePtr(self as *const Scope<'scope>);
+        self.tasks.lock().unwrap().push(Box::new(move || {
+            let this = this;
+            // SAFETY: see `ScopePtr`.
+            f(unsafe { &*this.0 })
+        }));
+    }
+}
+
 pub fn join<A, B, RA, RB>(oper_a: A, oper_b: B) -> (RA, RB)
 where
     A: FnOnce() -> RA + Send,
@@ -53,6 +92,10 @@ where
         Box::new(|| res_b = Some(oper_b())),
     ]);
     (res_a.unwrap(), res_b.unwrap())
+}
+
+pub mod prelude {
+    pub use super::iter::{IntoParallelIterator, IntoParallelRefIterator, ParallelIterator};
 }
 
 pub mod iter {
@@ -80,6 +123,19 @@ pub mod iter {
         type Item = &'a T;
         fn into_par_iter(self) -> ParIter<&'a T> {
             ParIter(self.iter().collect())
+        }
+    }
+
+    impl<T: Send, const N: usize> IntoParallelIterator for [T; N] {
+        type Item = T;
+        fn into_par_iter(self) -> ParIter<T> {
+            ParIter(self.into_iter().collect())
+        }
+    }
+    impl IntoParallelIterator for std::ops::Range<usize> {
+        type Item = usize;
+        fn into_par_iter(self) -> ParIter<usize> {
+            ParIter(self.collect())
         }
     }
 
@@ -142,12 +198,107 @@ pub mod iter {
             ParIter(results.into_iter().map(|r| r.unwrap()).collect())
         }
 
+        fn map<F, R>(self, op: F) -> ParIter<R>
+        where
+            F: Fn(Self::Item) -> R + Sync + Send,
+            R: Send,
+        {
+            self.map_with((), move |_, item| op(item))
+        }
+
+        fn for_each<F>(self, op: F)
+        where
+            F: Fn(Self::Item) + Sync + Send,
+        {
+            self.for_each_with((), move |_, item| op(item))
+        }
+
+        /// Like rayon: the first error observed is returned; tasks already started still run.
+        fn try_for_each_with<S, F, E>(self, init: S, op: F) -> Result<(), E>
+        where
+            S: Send + Clone,
+            F: Fn(&mut S, Self::Item) -> Result<(), E> + Sync + Send,
+            E: Send,
+        {
+            let first_error = std::sync::Mutex::new(None);
+            let first_error_ref = &first_error;
+            self.for_each_with(init, move |state, item| {
+                if let Err(e) = op(state, item) {
+                    first_error_ref.lock().unwrap().get_or_insert(e);
+                }
+            });
+            match first_error.into_inner().unwrap() {
+                Some(e) => Err(e),
+                None => Ok(()),
+            }
+        }
+
+        fn try_for_each<F, E>(self, op: F) -> Result<(), E>
+        where
+            F: Fn(Self::Item) -> Result<(), E> + Sync + Send,
+            E: Send,
+        {
+            self.try_for_each_with((), move |_, item| op(item))
+        }
+
+        fn filter_map<F, R>(self, op: F) -> ParIter<R>
+        where
+            F: Fn(Self::Item) -> Option<R> + Sync + Send,
+            R: Send,
+        {
+            ParIter(self.map(op).into_items().into_iter().flatten().collect())
+        }
+
+        fn filter<F>(self, op: F) -> ParIter<Self::Item>
+        where
+            F: Fn(&Self::Item) -> bool + Sync + Send,
+        {
+            ParIter(
+                self.map(move |item| if op(&item) { Some(item) } else { None })
+                    .into_items()
+                    .into_iter()
+                    .flatten()
+                    .collect(),
+            )
+        }
+
+        fn flat_map_iter<F, I>(self, op: F) -> ParIter<I::Item>
+        where
+            F: Fn(Self::Item) -> I + Sync + Send,
+            I: IntoIterator + Send,
+            I::Item: Send,
+        {
+            ParIter(self.map(op).into_items().into_iter().flatten().collect())
+        }
+
         fn flatten(self) -> ParIter<<Self::Item as IntoIterator>::Item>
         where
             Self::Item: IntoIterator,
             <Self::Item as IntoIterator>::Item: Send,
         {
             ParIter(self.into_items().into_iter().flatten().collect())
+        }
+
+        fn enumerate(self) -> ParIter<(usize, Self::Item)> {
+            ParIter(self.into_items().into_iter().enumerate().collect())
+        }
+
+        fn any<F>(self, op: F) -> bool
+        where
+            F: Fn(Self::Item) -> bool + Sync + Send,
+        {
+            self.map(op).into_items().into_iter().any(|b| b)
+        }
+
+        fn all<F>(self, op: F) -> bool
+        where
+            F: Fn(Self::Item) -> bool + Sync + Send,
+        {
+            self.map(op).into_items().into_iter().all(|b| b)
+        }
+
+        fn count(self) -> usize {
+            self.into_items().len()
         }
 
         fn collect<C: FromIterator<Self::Item>>(self) -> C {
